@@ -1,0 +1,13 @@
+//go:build verif
+
+// Contracts for gzv (contract-based deductive verification, /verif). Comment-only file.
+package fileserver
+
+// C09: deciding whether a request names a file to serve does not touch the request - a request that falls through reaches the
+// router with the path it came with (so it is matched, and its variables extracted, against the route table as registered);
+// the mount prefix is stripped only on the serving arm
+//@ func createServeChecker closure 0
+//@   property C09
+//@   flag callbacks_noheap
+//@   requires r != nil && r.URL != nil
+//@   modifies calls
